@@ -65,6 +65,11 @@ def make_cell(cfg, policy, req, rename, params, use, malformed):
     defs = {"P1": {"type": "object", "properties": {"z": {"type": "boolean"}}}}
     if use == "inline":
         user = {"type": "object", "properties": {"f": target}, "required": ["f"]}
+    elif use in SITES:
+        defs["Other"] = target
+        ref = {"$ref": "#/definitions/Other"}
+        fs, req = SITES[use](ref)
+        user = {"type": "object", "properties": {"f": fs}, "required": ["f"] if req else []}
     else:
         dname = "Target" if use == "def_eq" else "Other"
         defs[dname] = target
@@ -77,6 +82,40 @@ def make_cell(cfg, policy, req, rename, params, use, malformed):
             c["rename"] = RENAMES[rename]
         settings["crates"] = [c]
     return {"definitions": defs}, settings
+
+
+# further use sites of the annotated definition ("wherever it is used"): (schema of member f, f required)
+SITES = {
+    "item": lambda ref: ({"type": "array", "items": ref}, True),
+    "set_item": lambda ref: ({"type": "array", "items": ref, "uniqueItems": True}, True),
+    "mapval": lambda ref: ({"type": "object", "additionalProperties": ref}, True),
+    "optional": lambda ref: (ref, False),
+    "nullable": lambda ref: ({"oneOf": [ref, {"type": "null"}]}, True),
+    "variant": lambda ref: ({"oneOf": [ref, {"type": "integer"}]}, True),
+    "tuple_item": lambda ref: ({"type": "array", "items": [ref, {"type": "boolean"}], "minItems": 2, "maxItems": 2}, True),
+    "allof_single": lambda ref: ({"allOf": [ref]}, True),
+}
+
+
+def peel(ft, types, use):
+    """The type standing for the annotated schema inside the type of member f."""
+    for _ in range(4):
+        k = ft["kind"]
+        if k in ("option", "vec", "set", "box", "map"):
+            ft = types[ft["of"]]
+        elif k == "tuple" and use == "tuple_item":
+            ft = types[ft["items"][0]]
+        elif k == "enum" and use in ("variant", "nullable"):
+            def plain(t):
+                return t["kind"] == "builtin" and "::" not in (t.get("builtin") or "")
+            v = next((v for v in ft["variants"] if v["kind"] == "tuple" and len(v["types"]) == 1 and
+                      not plain(types[v["types"][0]])), None)
+            if v is None:
+                return ft
+            ft = types[v["types"][0]]
+        else:
+            return ft
+    return ft
 
 
 def expected(cfg, policy, req_matches, malformed):
@@ -111,6 +150,15 @@ def cells():
                         for use in ("def_eq", "def_diff", "inline"):
                             out.append(dict(cfg=cfg, policy=policy, req=req, m=None, rename=rename, params=params,
                                             use=use, malformed=None))
+    # further use sites, over a reduced configuration set (both decisions)
+    for use in SITES:
+        for cfg, policy, req, m in (("absent", "Allow", "1.2.3", None), ("absent", "Deny", "1.2.3", None),
+                                    ("*", "Generate", "1.2.3", None), ("!", "Allow", "1.2.3", None),
+                                    ("1.4.0", "Generate", "^1.2", True), ("2.0.0", "Allow", "^1.2", False)):
+            for rename in (("none", "hyph") if cfg != "absent" else ("none",)):
+                for params in ("p0", "p1r", "p2ri"):
+                    out.append(dict(cfg=cfg, policy=policy, req=req, m=m, rename=rename, params=params,
+                                    use=use, malformed=None))
     # malformed extensions in configurations that would otherwise substitute
     for mal in ("bad_req", "path_no_sep", "path_wrong_crate", "wrong_types", "missing_version"):
         for cfg, policy in (("absent", "Allow"), ("*", "Generate"), ("1.2.3", "Deny")):
@@ -171,6 +219,10 @@ def run(tier, seed, replay=None):
             rep.violation("no_user_type", "-", {"cell": c}, case=case, cell=c)
             continue
         ft = types[user["props"][0]["type_id"]]
+        site_use = c["use"]
+        if c["use"] in SITES:
+            ft = peel(ft, types, c["use"])
+            c = dict(c, use="def_diff")
         items = {f["name"]: f for f in res.get("facts") or [] if f["kind"] in ("struct", "enum") and f["mod"] == ""}
         # what happened?
         target = ft
@@ -181,7 +233,7 @@ def run(tier, seed, replay=None):
                 wrapper, target = ft, inner
         substituted = target["kind"] == "builtin" and "::" in (target.get("builtin") or "")
         site = "cfg=%s;policy=%s;mal=%s;use=%s" % ("version" if c["m"] is not None and c["cfg"] not in ("absent", "*", "!")
-                                                  else c["cfg"], c["policy"], c["malformed"], c["use"])
+                                                  else c["cfg"], c["policy"], c["malformed"], site_use)
         if substituted != want_sub:
             rep.violation("decision", site, {"cell": c, "expected_substitution": want_sub, "observed": ft["ident"]},
                           case=case, cell=c)
@@ -233,6 +285,8 @@ def run(tier, seed, replay=None):
                 rep.violation("generated_item_missing", site, {"cell": c, "type": ft["name"]}, case=case, cell=c)
                 continue
         rep.count("substituted" if want_sub else "generated")
+        c = dict(c, use=site_use)
+        rep.count("site_" + site_use)
         rep.nontrivial.add(json.dumps(c, sort_keys=True))
         if len(rep.samples) < 6 and (c["rename"] != "none" or c["malformed"]):
             rep.sample({"cell": c, "substituted": want_sub, "f_type": ft["ident"]})
